@@ -17,5 +17,5 @@ for n in $IDS; do
     echo "$n patch-does-not-apply" | tee -a $OUT
   fi
   git -C /repo worktree remove --force $W
-  rm -rf build/alt-*
+  rm -rf build/alt-$(python3 -c "import hashlib,sys;print(hashlib.sha1(sys.argv[1].encode()).hexdigest()[:10])" $W)
 done
